@@ -33,7 +33,7 @@ def skeleton(n):
     return _SK[n]
 
 
-def run_history(cfg, frames):
+def run_history(cfg, frames, container=list):
     """frames: list of lists of {"id", "pts", "score"}. Returns (records, exception or None).
 
     records[f] = {"in": [(obj id, animal id, score)], "out": [(obj id, track name)], "exc": str|None}
@@ -54,7 +54,7 @@ def run_history(cfg, frames):
                "n_tracks_before": len(tracker.candidate.current_tracks)}
         try:
             with np.errstate(all="ignore"):
-                out = tracker.track(list(objs), f)
+                out = tracker.track(container(objs), f)  # the detections of a frame as a list (documented) or another sequence type
             rec["out"] = [(id(o), (o.track.name if o.track is not None else None)) for o in out]
         except Exception as e:  # the property demands totality: record and stop this history
             import traceback
